@@ -813,7 +813,9 @@ impl Paragraph {
 
     /// Remove the given field from the paragraph.
     pub fn remove(&mut self, key: &str) {
-        for mut entry in self.entries() {
+        // Collect first: detaching while iterating over the siblings ends the
+        // iteration after the first match.
+        for mut entry in self.entries().collect::<Vec<_>>() {
             if entry.key().as_deref() == Some(key) {
                 entry.detach();
             }
